@@ -815,6 +815,85 @@ fn audit(c: &Ctx, tag: &str, fails: &mut Vec<String>) {
     }
 }
 
+/// key-value separation audits on the real tree: REF (C08: every stored pointer resolves to the bytes written for that key
+/// and version) and FRAG (C09: recorded garbage per blob file = blobs of the file no table points to)
+fn blob_audit(c: &Ctx, tag: &str, fails: &mut Vec<String>, counters: &mut BTreeMap<String, u64>) {
+    if c.cfg.blob.is_none() {
+        return;
+    }
+    let tree = index_tree(&c.tree);
+    let blobs_folder = c.dir.path().join("blobs");
+    let mut svs = vec![va::latest_super_version(tree)];
+    for s in &c.snaps {
+        svs.push(va::super_version_for(tree, *s));
+    }
+    for (i, sv) in svs.iter().enumerate() {
+        let v = va::version_of(sv);
+        let mut referenced: BTreeSet<(u64, u64)> = BTreeSet::new();
+        for t in v.iter_tables() {
+            for e in table_entries(t) {
+                if e.vt != 4 {
+                    continue;
+                }
+                *counters.entry("blob.pointers_checked".into()).or_default() += 1;
+                let Ok((fid, off, _od, size)) = va::decode_indirection(&e.val) else {
+                    fails.push(format!("C08 after `{tag}`: undecodable pointer for {}@{}", hex(&e.key), e.seqno));
+                    continue;
+                };
+                referenced.insert((fid, off));
+                match va::resolve_indirection(&v, &blobs_folder, &e.key, &e.val) {
+                    Ok(Some(val)) => {
+                        let want_prefix = format!("{}@", hex(&e.key)).into_bytes();
+                        if !val.starts_with(&want_prefix) || val.len() as u32 != size {
+                            fails.push(format!("C08 after `{tag}`: pointer of {}@{} in table {} resolves to foreign bytes {:?}", hex(&e.key), e.seqno, t.id(), String::from_utf8_lossy(&val)));
+                        }
+                    }
+                    Ok(None) => fails.push(format!("C08 after `{tag}`: dangling pointer of {}@{} in table {} (blob file {fid} not in the version; history entry {i})", hex(&e.key), e.seqno, t.id())),
+                    Err(err) => fails.push(format!("C08 after `{tag}`: pointer of {}@{} in table {} does not resolve: {err:?}", hex(&e.key), e.seqno, t.id())),
+                }
+            }
+        }
+        if i > 0 {
+            continue; // FRAG is audited on the published (latest) version
+        }
+        let stats: BTreeMap<u64, (usize, u64, u64)> = va::gc_stats_of(&v).into_iter().map(|(id, l, b, d)| (id, (l, b, d))).collect();
+        let files = va::blob_files_of(&v);
+        for (id, path, _n, _u, _cpr) in &files {
+            if !path.exists() {
+                fails.push(format!("C09 after `{tag}`: blob file {id} named by the version does not exist"));
+                continue;
+            }
+            let Ok(blobs) = va::scan_blob_file(path, *id) else {
+                fails.push(format!("C09 after `{tag}`: blob file {id} cannot be scanned"));
+                continue;
+            };
+            let (mut gl, mut gb, mut gd) = (0usize, 0u64, 0u64);
+            for (_k, _s, off, ulen, dlen) in &blobs {
+                if !referenced.contains(&(*id, *off)) {
+                    gl += 1;
+                    gb += u64::from(*ulen);
+                    gd += u64::from(*dlen);
+                }
+            }
+            let rec = stats.get(id).copied().unwrap_or((0, 0, 0));
+            *counters.entry("blob.files_audited".into()).or_default() += 1;
+            if gl > 0 {
+                *counters.entry("blob.files_with_garbage".into()).or_default() += 1;
+            }
+            if rec != (gl, gb, gd) {
+                fails.push(format!("C09 after `{tag}`: blob file {id}: recorded garbage (len, bytes, on_disk) = {rec:?}, actual unreferenced blobs = {:?}", (gl, gb, gd)));
+            }
+        }
+        let sum: u64 = stats.values().map(|x| x.2).sum();
+        if c.tree.stale_blob_bytes() != sum {
+            fails.push(format!("C09 after `{tag}`: stale_blob_bytes() = {} but the recorded entries sum to {sum}", c.tree.stale_blob_bytes()));
+        }
+        if c.tree.blob_file_count() != files.len() {
+            fails.push(format!("C09 after `{tag}`: blob_file_count() = {} vs {} files in the version", c.tree.blob_file_count(), files.len()));
+        }
+    }
+}
+
 pub fn run_case(case: &Case, runner: &mut Runner) -> Outcome {
     let r = std::panic::catch_unwind(std::panic::AssertUnwindSafe(|| run_case_inner(case, runner)));
     match r {
@@ -1149,6 +1228,7 @@ fn run_case_inner(case: &Case, runner: &mut Runner) -> Outcome {
                 check_at(&c, s, true, &tag, &mut fails);
             }
             audit(&c, &tag, &mut fails);
+            blob_audit(&c, &tag, &mut fails, &mut out.counters);
             // model read correspondence on a sample of keys / snapshots
             if runner.check_reads_with_model && out.disagreement.is_none() {
                 let mut ss = vec![c.vis.get()];
@@ -1172,6 +1252,10 @@ fn run_case_inner(case: &Case, runner: &mut Runner) -> Outcome {
             }
             if !c.snaps.is_empty() {
                 bump(&mut out, "checks.with_held_snapshot");
+            }
+            if let Ok(ign) = std::env::var("LSMVERIF_IGNORE") {
+                // exploration aid only (never set by ./check): keep going past failures of the named property
+                fails.retain(|f| !ign.split(',').any(|p| f.starts_with(p)));
             }
             out.oracle_failures.extend(fails);
         }
